@@ -34,5 +34,5 @@ def gen_c07_random(rnd, tier):
         c, s, h = rnd.choice(ROTS2)
         D = {'M': [[c, -s, 0], [s, c, 0], [0, 0, h]], 'H': h, 't': [rnd.randint(-3, 3), rnd.randint(-3, 3), 0], 'tden': 8}
         k = rnd.randint(8, len(ELLS))
-        out.append({'m': 'align', 'op': 'curve', 'ref': ELL, 'samples': rnd.sample(ELLS, k) if k >= 10 else ELLS, 'D': D, 'guess': rnd.randint(0, 1), 'basin': True})
+        out.append({'m': 'align', 'op': 'curve', 'ref': ELL, 'samples': rnd.sample(ELLS, k) if k >= 10 else ELLS, 'D': D, 'guess': rnd.randint(0, 2), 'off': rnd.choice([[0, 0, 0], [150, -90, 0], [-400, 250, 0]]), 'basin': True})
     return out
